@@ -405,7 +405,7 @@ M("fmt7-str", "C18", TY, '        return "".join(self.format())', '        retur
 M("fmt2-summaries-flipped", "C19", TY, "            if frame.hide and not show_hidden_frames:\n                continue", "            if frame.hide or not show_hidden_frames:\n                continue", "FMT-2")
 M("fmt2-ctx-summaries-deleted", "C19", TY, "        if self.hide and not show_hidden_frames:\n            return\n", "", "FMT-2")
 M("fmt4-summary-first", "C19", TY, "        if not (self.contexts and self.contexts[-1].is_exiting):\n            yield self.as_stdlib_summary", "        if not (self.contexts and self.contexts[0].is_exiting):\n            yield self.as_stdlib_summary", "FMT-4", accept_analysis_error=True)
-M("fmt4-summary-always", "C19", TY, "        if not (self.contexts and self.contexts[-1].is_exiting):\n            yield self.as_stdlib_summary", "        if not (self.contexts or self.contexts[-1].is_exiting):\n            yield self.as_stdlib_summary", "FMT-4")
+M("fmt4-summary-always", "C19", TY, "        if not (self.contexts and self.contexts[-1].is_exiting):\n            yield self.as_stdlib_summary", "        if not (self.contexts or self.contexts[-1].is_exiting):\n            yield self.as_stdlib_summary", "FMT-13")
 M("fmt6-locals-raw", "C19", TY, "                name: repr(value) for name, value in self.pyframe.f_locals.items()", "                name: value for name, value in self.pyframe.f_locals.items()", "FMT-6")
 M("fmt6-ctx-locals-obj", "C19", TY, 'save_locals = {"<context manager>": self.description or repr(self.obj)}', 'save_locals = {"<context manager>": self.obj}', "FMT-6")
 M("fmt6-frame-arg", "C19", TY, "        return traceback.FrameSummary(\n            self.filename,\n            self.lineno,\n            self.funcname,\n            locals=save_locals,\n        )", "        return traceback.FrameSummary(\n            self.filename,\n            self.lineno,\n            self.funcname,\n            locals=save_locals,\n            lookup_line=False,\n            line=self.pyframe,  # type: ignore\n        )", "FMT-6")
@@ -494,10 +494,10 @@ M("fmt10-context-first-continue", "C18", TY, "                    if idx == 0:\n
 M("fmt11-leaf-inverted", "C18", TY, "        if self.leaf is not None:\n            lines.append(f\"{start_leaf}{self.leaf!r}\\n\")", "        if self.leaf is None:\n            lines.append(f\"{start_leaf}{self.leaf!r}\\n\")", "FMT-11")
 M("fmt11-error-dropped", "C18", TY, "        if self.error is not None:\n            lines.extend(self._format_error())\n        return lines\n\n    def format_flat", "        return lines\n\n    def format_flat", "FMT-11")
 M("fmt11-error-lines-lost", "C18", TY, "                for subline in line.splitlines(True):\n                    yield \"  \" + subline", "                pass", "FMT-11")
-M("fmt12-no-yield-plain", "C19", TY, "            else:\n                yield frame.as_stdlib_summary(capture_locals=capture_locals)", "            else:\n                pass", "FMT-12")
+M("fmt12-no-yield-plain", "C19", TY, "            else:\n                yield frame.as_stdlib_summary(capture_locals=capture_locals)", "            else:\n                pass", "FMT-13")
 M("fmt12-capture-inverted", "C19", TY, "        if capture_locals:\n            save_locals = {\n                name: repr(value)", "        if not capture_locals:\n            save_locals = {\n                name: repr(value)", "FMT-12")
 M("fmt12-flat-default", "C19", TY, "    def format_flat(self, *, show_contexts: bool = False) -> List[str]:", "    def format_flat(self, *, show_contexts: bool = True) -> List[str]:", "FMT-12")
-M("fmt4-exiting-operand-dropped", "C19", TY, "        if not (self.contexts and self.contexts[-1].is_exiting):\n            yield self.as_stdlib_summary", "        if not self.contexts:\n            yield self.as_stdlib_summary", "FMT-4")
+M("fmt4-exiting-operand-dropped", "C19", TY, "        if not (self.contexts and self.contexts[-1].is_exiting):\n            yield self.as_stdlib_summary", "        if not self.contexts:\n            yield self.as_stdlib_summary", "FMT-13")
 M("reg5-hide-line-inverted", "C12", CU, "        if hide_line:\n            frame.hide_line = True", "        if not hide_line:\n            frame.hide_line = True", "REG-5")
 
 # ---------------------------------------------------------------- FORM-1 / FORM-2 (ctypes arithmetic)
@@ -527,3 +527,24 @@ M("ver5-positions", "C01", LL, "        if insn.starts_line is not None:\n      
 M("sig1-glue-hook-one-param", "C11", GL, "    def unwrap_greenback_async_context(manager: Any, context: Context) -> Any:\n        return manager._cm", "    def unwrap_greenback_async_context(manager: Any) -> Any:\n        return manager._cm", "SIG-1")
 M("sig1-engine-call-one-arg", "C10", EX, "            replacement = elaborate_frame(frame, next_inner)", "            replacement = elaborate_frame(frame)", ["SIG-1"], accept_analysis_error=True)
 M("sig1-contextvars-hook", "C10", GL, "    @unwrap_stackitem.register(ANextIter)\n    def unwrap_async_generator_backport_next_iter(aw: Any) -> Any:", "    @unwrap_stackitem.register(ANextIter)\n    def unwrap_async_generator_backport_next_iter(aw: Any, ctx: Any) -> Any:", "SIG-1")
+
+# ---------------------------------------------------------------- FMT-13 emission tables
+M("fmt13-own-before-contexts", "C19", TY,
+  "        for context in self.contexts:\n            yield from context._frame_summaries(\n                self, show_hidden_frames, capture_locals\n            )\n",
+  "        if not (self.contexts and self.contexts[-1].is_exiting):\n            yield self.as_stdlib_summary(capture_locals=capture_locals)\n        for context in self.contexts:\n            yield from context._frame_summaries(\n                self, show_hidden_frames, capture_locals\n            )\n        return\n", "FMT-13")
+M("fmt13-exiting-any-context", "C02", TY, "        if not (self.contexts and self.contexts[-1].is_exiting):\n            yield self.as_stdlib_summary(", "        if not (self.contexts and self.contexts[0].is_exiting):\n            yield self.as_stdlib_summary(", "EXI-2")
+M("fmt13-hidden-kills-rest", "C19", TY, "        for frame in self.frames:\n            if frame.hide and not show_hidden_frames:\n                continue\n            if show_contexts:", "        for frame in self.frames:\n            if frame.hide and not show_hidden_frames:\n                return\n            if show_contexts:", ["FMT-13"], accept_analysis_error=True)
+M("fmt13-inner-stack-after-children", "C19", TY,
+  "        if self.inner_stack is not None:\n            yield from self.inner_stack._frame_summaries(\n                show_contexts=True,\n                show_hidden_frames=show_hidden_frames,\n                capture_locals=capture_locals,\n            )\n        for subctx in self.children:\n            if isinstance(subctx, Context):\n                yield from subctx._frame_summaries(\n                    parent,\n                    show_hidden_frames,\n                    capture_locals,\n                    \"# \" + (subctx.description or repr(subctx)),\n                )\n",
+  "        for subctx in self.children:\n            if isinstance(subctx, Context):\n                yield from subctx._frame_summaries(\n                    parent,\n                    show_hidden_frames,\n                    capture_locals,\n                    \"# \" + (subctx.description or repr(subctx)),\n                )\n        if self.inner_stack is not None:\n            yield from self.inner_stack._frame_summaries(\n                show_contexts=True,\n                show_hidden_frames=show_hidden_frames,\n                capture_locals=capture_locals,\n            )\n", "FMT-13")
+M("fmt13-inner-stack-no-contexts", "C19", TY, "            yield from self.inner_stack._frame_summaries(\n                show_contexts=True,", "            yield from self.inner_stack._frame_summaries(\n                show_contexts=False,", "FMT-13")
+M("fmt13-hidden-context-keeps-going", "C19", TY, "        if self.hide and not show_hidden_frames:\n            return\n        if capture_locals:\n            save_locals = {\"<context manager>\"", "        if self.hide and show_hidden_frames:\n            return\n        if capture_locals:\n            save_locals = {\"<context manager>\"", "FMT-13")
+M("fmt13-child-parent-wrong", "C19", TY, "                yield from subctx._frame_summaries(\n                    parent,\n                    show_hidden_frames,", "                yield from subctx._frame_summaries(\n                    parent,\n                    True,", "FMT-13")
+M("fmt13-only-when-capture", "C19", TY, "        if not (self.contexts and self.contexts[-1].is_exiting):\n            yield self.as_stdlib_summary(capture_locals=capture_locals)", "        if not (self.contexts and self.contexts[-1].is_exiting) or capture_locals:\n            yield self.as_stdlib_summary(capture_locals=capture_locals)", "FMT-13")
+T("fmt13-twin-len", "C19", TY, "        if not (self.contexts and self.contexts[-1].is_exiting):\n            yield self.as_stdlib_summary(", "        if len(self.contexts) == 0 or not self.contexts[-1].is_exiting:\n            yield self.as_stdlib_summary(")
+T("fmt13-twin-local", "C19", TY, "        if not (self.contexts and self.contexts[-1].is_exiting):\n            yield self.as_stdlib_summary(", "        exiting = self.contexts and self.contexts[-1].is_exiting\n        if not exiting:\n            yield self.as_stdlib_summary(")
+T("fmt13-twin-early-return", "C19", TY, "        if not (self.contexts and self.contexts[-1].is_exiting):\n            yield self.as_stdlib_summary(capture_locals=capture_locals)", "        if self.contexts and self.contexts[-1].is_exiting:\n            return\n        yield self.as_stdlib_summary(capture_locals=capture_locals)")
+T("fmt13-twin-guarded-loop", "C19", TY, "        for context in self.contexts:\n            yield from context._frame_summaries(\n                self, show_hidden_frames, capture_locals\n            )\n", "        if self.contexts:\n            for context in self.contexts:\n                yield from context._frame_summaries(\n                    self, show_hidden_frames, capture_locals\n                )\n")
+T("fmt13-twin-not-hidden-nest", "C19", TY, "            if frame.hide and not show_hidden_frames:\n                continue\n            if show_contexts:\n                yield from frame.as_stdlib_summary_with_contexts(\n                    show_hidden_frames=show_hidden_frames, capture_locals=capture_locals\n                )\n            else:\n                yield frame.as_stdlib_summary(capture_locals=capture_locals)",
+  "            if show_hidden_frames or not frame.hide:\n                if not show_contexts:\n                    yield frame.as_stdlib_summary(capture_locals=capture_locals)\n                else:\n                    yield from frame.as_stdlib_summary_with_contexts(\n                        show_hidden_frames=show_hidden_frames, capture_locals=capture_locals\n                    )")
+T("fmt13-twin-entry-local", "C19", TY, "            else:\n                yield frame.as_stdlib_summary(capture_locals=capture_locals)", "            else:\n                entry = frame.as_stdlib_summary(capture_locals=capture_locals)\n                yield entry")
